@@ -254,7 +254,7 @@ func sendFlight(vc *gmtls.VerifConn, flight [][]string, build func(name string) 
 }
 
 // scriptedClient plays the GM client against a real server.
-func scriptedClient(conn net.Conn, suite uint16, cc, tk bool, chv uint16, packing string) (log string) {
+func scriptedClient(conn net.Conn, suite uint16, cc, tk bool, chv uint16, packing string, comp []byte) (log string) {
 	vc := gmtls.VerifNewConn(conn, &gmtls.Config{GMSupport: &gmtls.GMSupport{}, InsecureSkipVerify: true}, true)
 	defer vc.Release()
 	defer func() {
@@ -273,7 +273,7 @@ func scriptedClient(conn net.Conn, suite uint16, cc, tk bool, chv uint16, packin
 	vc.SetVersion(versGM)
 	cr := rnd(32)
 	ch := gmtls.VerifMarshalClientHello(gmtls.VerifClientHello{Vers: chv, Random: cr, CipherSuites: []uint16{suite},
-		CompressionMethods: []uint8{0}, ServerName: "localhost", TicketSupported: tk})
+		CompressionMethods: comp, ServerName: "localhost", TicketSupported: tk})
 	fh := gmtls.VerifNewFinishedHashGM()
 	fh.Write(ch)
 	rmust(vc.WriteHandshake(ch), "write ClientHello")
@@ -540,7 +540,9 @@ func runR(f []string) (string, string) {
 			cfg.Time = func() time.Time { return fixedNow }
 			return rPair(
 				func(conn net.Conn) *gmtls.Conn { return gmtls.Server(conn, cfg) },
-				func(conn net.Conn) string { return scriptedTLSClient(conn, tsuite, tk, uint16(chv), f[6]) })
+				func(conn net.Conn) string {
+					return scriptedTLSClient(conn, tsuite, tk, uint16(chv), f[6], compFor(kvOf(f[4])))
+				})
 		}
 		cfg := &gmtls.Config{RootCAs: E.pool, ServerName: "localhost", MaxVersion: uint16(chv), CipherSuites: []uint16{tsuite},
 			SessionTicketsDisabled: true}
@@ -577,7 +579,7 @@ func runR(f []string) (string, string) {
 		cfg.Time = func() time.Time { return fixedNow }
 		return rPair(
 			func(conn net.Conn) *gmtls.Conn { return gmtls.Server(conn, cfg) },
-			func(conn net.Conn) string { return scriptedClient(conn, suite, cc, tk, uint16(chv), f[6]) })
+			func(conn net.Conn) string { return scriptedClient(conn, suite, cc, tk, uint16(chv), f[6], compFor(kv)) })
 	case "sa": // auto-switch server, GMSSL ClientHello
 		auth, _ := strconv.Atoi(kv["auth"])
 		chv, err := strconv.ParseUint(f[5], 16, 16)
@@ -593,7 +595,7 @@ func runR(f []string) (string, string) {
 		cfg.Time = func() time.Time { return fixedNow }
 		return rPair(
 			func(conn net.Conn) *gmtls.Conn { return gmtls.Server(conn, cfg) },
-			func(conn net.Conn) string { return scriptedClient(conn, suite, cc, tk, uint16(chv), f[6]) })
+			func(conn net.Conn) string { return scriptedClient(conn, suite, cc, tk, uint16(chv), f[6], compFor(kv)) })
 	case "cg":
 		cr := kv["cr"] == "1"
 		cfg := &gmtls.Config{GMSupport: &gmtls.GMSupport{}, RootCAs: poolSM2(), ServerName: "localhost", CipherSuites: []uint16{suite},
